@@ -293,6 +293,20 @@ def terminates(stmts):
     return False
 
 
+def positional_index(sl):
+    """is the index of `x[sl] = …` syntactically an array position (ints, slices, Ellipsis, None, masks, arithmetic),
+    as opposed to something that may name a coordinate / variable of an xarray object (a string, a name, a call)"""
+    if isinstance(sl, (ast.Tuple, ast.Slice)):
+        return True
+    if isinstance(sl, ast.Constant):
+        return not isinstance(sl.value, str)
+    if isinstance(sl, ast.UnaryOp):
+        return positional_index(sl.operand)
+    if isinstance(sl, (ast.Compare, ast.BinOp, ast.BoolOp, ast.List, ast.ListComp)):
+        return True
+    return False
+
+
 def only_raises(stmts):
     return bool(stmts) and isinstance(stmts[-1], ast.Raise)
 
@@ -537,6 +551,8 @@ class Translator:
         self.rebinds = []      # (input parameter, attribute, source text)
         self.inlined = set()
         self.used = set()      # primitives of the table applied to an array (for the run-time probes)
+        self.guards = []       # (module name, source text) of the branch conditions the current statement sits under
+        self.inlined_nodes = []  # (Module, FunctionDef) of everything inlined (for the source hints)
 
     # ---- emission
     def new(self, name):
@@ -545,6 +561,8 @@ class Translator:
         return self.nvars - 1
 
     def emit(self, *op):
+        if op[0] == "write" and len(op) == 2:
+            op = op + (tuple(self.guards),)       # diagnostics only: the Lean emitter reads op[1]
         self.blocks[-1].append(tuple(op))
 
     def push(self):
@@ -1554,7 +1572,7 @@ class Eval(Translator):
             self.eval(scope, target.slice)
             sl = target.slice
             named = isinstance(sl, ast.JoinedStr) or (isinstance(sl, ast.Constant) and isinstance(sl.value, str))
-            self.store_into(base, v, self.const_key(scope, sl), named=named)
+            self.store_into(base, v, self.const_key(scope, sl), named=named, positional=positional_index(sl))
             return
         if isinstance(target, ast.Attribute):
             base = self.eval(scope, target.value)
@@ -1588,14 +1606,23 @@ class Eval(Translator):
             return
         raise Unsupported(f"assignment target {type(target).__name__}")
 
-    def store_into(self, base, v, key=None, named=False):
-        """base[...] = v; `named`: the index is a string (ds['layer'] = …), not a position"""
+    def store_into(self, base, v, key=None, named=False, positional=True):
+        """base[...] = v; `named`: the index is a string (ds['layer'] = …), not a position; `positional`: the index
+        is syntactically an array position (ints, slices, masks).  On a raster object `obj[name] = v` with a name
+        that is no position assigns the coordinate / variable of that name: a write of its coordinates component too
+        (`raster[x] = wrapped_longitudes`), after which that component may hold `v`."""
         if base == SC or base[0] in ("ext",):
             return
         if base[0] in ("glob", "globitem"):
             raise Unsupported("store into module state")
         for b in dict.fromkeys(self.vars_of(base) if base[0] == "tup" else [base[1]]):
             self.emit("write", b)
+            if not positional and base[0] == "var" and b == base[1] and b in self.objs and not self.is_nda(b) \
+                    and b not in self.cont:
+                cslot = self.objs[b][0]
+                self.emit("write", cslot)
+                for x in self.vars_of(v):
+                    self.weak_view(cslot, x)
             if b in self.cont:
                 dst = self.field_of(b, key) if key is not None else self.elems_of(b)
                 for x in self.vars_of(v):
@@ -1681,15 +1708,21 @@ class Eval(Translator):
                     self.stmts(scope, st.orelse + ([] if et else rest))
                     return
                 self.eval(scope, st.test)
+                gtext = (scope.module.name, ast.unparse(st.test))
+                ngtext = (scope.module.name, "not (" + ast.unparse(st.test) + ")")
                 if bt or et:
                     f0 = self.flags()
                     self.push()
+                    self.guards.append(gtext)
                     self.stmts(scope, st.body + ([] if bt else rest))
+                    self.guards.pop()
                     p = self.pop()
                     fp = self.flags()
                     self.set_flags(f0)
                     self.push()
+                    self.guards.append(ngtext)
                     self.stmts(scope, st.orelse + ([] if et else rest))
+                    self.guards.pop()
                     q = self.pop()
                     self.set_flags(self.flags_join(fp, self.flags()))
                     if not p and only_raises_deep(st.body):
@@ -1701,12 +1734,16 @@ class Eval(Translator):
                     return
                 f0 = self.flags()
                 self.push()
+                self.guards.append(gtext)
                 self.stmts(scope, st.body)
+                self.guards.pop()
                 p = self.pop()
                 fp = self.flags()
                 self.set_flags(f0)
                 self.push()
+                self.guards.append(ngtext)
                 self.stmts(scope, st.orelse)
+                self.guards.pop()
                 q = self.pop()
                 self.set_flags(self.flags_join(fp, self.flags()))
                 if p or q:
@@ -1918,6 +1955,8 @@ class Calls(Eval):
             return self.conservative_call("recursive:" + (fr.name or "?"), args, kwargs)
         label = f"{fr.name}#{len(self.inlined)}"
         self.inlined.add((fr.module.name if fr.module else "?", fr.name, len(self.inlined)))
+        if fr.module is not None and not any(n is fn for _, n in self.inlined_nodes):
+            self.inlined_nodes.append((fr.module, fn))
         sc = Scope(fr.module, parent=fr.scope, label=label)
         a = fn.args
         params = [p.arg for p in a.posonlyargs + a.args]
@@ -2102,7 +2141,16 @@ def translate_entry(mods, mn, fn, node):
         tr.blocks = [[("unknown", "recursion")]]
         ret = mk_ret()
     items = tr.blocks[0]
+    public_params = {p.arg for p in params}
+    try:
+        iw = [dict(inputs=[in_names[i] for i in t], through=tr.names[v] if v < len(tr.names) else str(v),
+                   guards=[g[1] for g in gs], hints=guard_hints(mods, gs, public_params))
+              for v, t, gs in input_writes(items, k)]
+        hints = source_hints([(m, node)] + list(tr.inlined_nodes), public_params)
+    except Exception as ex:       # diagnostics only
+        iw, hints = [], dict(params={}, thresholds=[], error=repr(ex)[:120])
     return dict(module=mn, func=fn, k=k, nparams=np_, params=in_names, ret=ret, items=items, status=status, nvars=tr.nvars,
+                input_writes=iw, hints=hints,
                 wused=sorted(tr.wused),
                 names=tr.names, used=sorted(tr.used), unclassified=sorted(tr.unclassified), unknowns=tr.unknowns,
                 rebinds=[(inputs[i], attr, src) for i, attr, src in tr.rebinds],
@@ -2172,6 +2220,169 @@ def slice_items(items, ret):
                 out.append(it)
         return out
     return keep(items)
+
+
+# ---------------------------------------------------------------------------------------------------
+# diagnostics for the failing-input search (never used by a theorem): which writes of a generated program may go
+# through an alias of an input buffer, under which branch conditions of the source they sit, and which argument
+# values the source itself suggests (constants a parameter is compared with, keys of the tables it is looked up in,
+# numeric thresholds that coordinates / cells are compared with)
+def input_writes(items, k):
+    """mirror of `acheck` of Model/BufProg.lean that does not stop at the first offending write:
+    [(variable written through, sorted input buffers it may point into, guards)]"""
+    found = {}
+
+    def join(a, b):
+        out = dict(a)
+        for v, t in b.items():
+            out[v] = out.get(v, frozenset()) | t
+        return out
+
+    def run(its, T):
+        for it in its:
+            op = it[0]
+            if op in ("alloc", "copy"):
+                T = dict(T)
+                T.pop(it[1], None)
+            elif op in ("view", "mview"):
+                src = T.get(it[2])
+                T = dict(T)
+                if src:
+                    T[it[1]] = src
+                else:
+                    T.pop(it[1], None)
+            elif op == "write":
+                t = T.get(it[1])
+                if t:
+                    key = (it[1], tuple(it[2]) if len(it) > 2 else ())
+                    found[key] = found.get(key, frozenset()) | t
+            elif op == "build":
+                T0, T = T, dict(T)
+                for dst, src, mode in zip(it[2], it[3], WPRIMS[it[1]]):
+                    t = T0.get(src) if (src is not None and mode in ("shallow", "maybe")) else None
+                    if t:
+                        T[dst] = t
+                    else:
+                        T.pop(dst, None)
+            elif op == "ite":
+                T = join(run(it[1], T), run(it[2], T))
+            elif op == "loop":
+                for _ in range(64):
+                    T2 = join(T, run(it[1], T))
+                    if T2 == T:
+                        break
+                    T = T2
+        return T
+    run(items, {i: frozenset([i]) for i in range(k)})
+    return [(v, sorted(t), list(g)) for (v, g), t in found.items()]
+
+
+_VOC_CACHE = {}
+
+
+def module_vocabulary(m):
+    """name -> [(constant key / element, value node or None)] of the tables of a module, wherever they are filled:
+    `X = {…}`, `X = dict(a=…)`, `X = ('a', 'b')`, `X['KEY'] = …` (also inside a function that builds the table)"""
+    if id(m) in _VOC_CACHE:
+        return _VOC_CACHE[id(m)]
+    voc = {}
+    for node in ast.walk(m.tree):
+        if not (isinstance(node, ast.Assign) and len(node.targets) == 1):
+            continue
+        t, v = node.targets[0], node.value
+        if isinstance(t, ast.Name):
+            if isinstance(v, ast.Dict):
+                ks = [(k.value, x) for k, x in zip(v.keys, v.values) if isinstance(k, ast.Constant)]
+            elif isinstance(v, ast.Call) and dotted(v.func) == "dict" and not v.args:
+                ks = [(kw.arg, kw.value) for kw in v.keywords if kw.arg]
+            elif isinstance(v, (ast.Tuple, ast.List, ast.Set)) and v.elts and all(isinstance(e, ast.Constant) for e in v.elts):
+                ks = [(e.value, None) for e in v.elts]
+            else:
+                continue
+            voc.setdefault(t.id, []).extend(ks)
+        elif isinstance(t, ast.Subscript) and isinstance(t.value, ast.Name) and isinstance(t.slice, ast.Constant):
+            voc.setdefault(t.value.id, []).append((t.slice.value, v))
+    _VOC_CACHE[id(m)] = voc
+    return voc
+
+
+def _jsonable(v):
+    return v is None or (isinstance(v, (str, bool, int, float)) and v == v and v not in (float("inf"), float("-inf")))
+
+
+def source_hints(nodes, public_params):
+    """nodes: [(Module, ast node)] -- the functions (or guard expressions) to read.  ->
+    {"params": {parameter name: values it is compared with / keys of the tables it indexes}, "thresholds": numbers
+    that something which is not a plain constant is compared with}"""
+    params, thresholds = {}, []
+
+    def const_value(m, q):
+        if isinstance(q, ast.Constant):
+            return q.value
+        if isinstance(q, ast.UnaryOp) and isinstance(q.op, ast.USub):
+            c = const_value(m, q.operand)
+            return -c if isinstance(c, (int, float)) and not isinstance(c, bool) else None
+        if isinstance(q, ast.Name) and isinstance(m.consts.get(q.id), ast.Constant):
+            return m.consts[q.id].value
+        return None
+
+    def values_of(m, q):
+        voc = module_vocabulary(m)
+        out = []
+        if isinstance(q, (ast.Tuple, ast.List, ast.Set)):
+            for e in q.elts:
+                out.extend(values_of(m, e))
+            return out
+        if isinstance(q, ast.Name) and q.id in voc:
+            return [k for k, _ in voc[q.id]]
+        c = const_value(m, q)
+        if c is not None or (isinstance(q, ast.Constant) and q.value is None):
+            out.append(c)
+        if isinstance(q, ast.Name):
+            # a named constant: also the keys under which the tables of the module hold it
+            # (`DISTANCE_METRICS['GREAT_CIRCLE'] = GREAT_CIRCLE`; the public parameter takes the key)
+            for tab in voc.values():
+                out.extend(k for k, vn in tab if isinstance(vn, ast.Name) and vn.id == q.id)
+        return out
+
+    def add(name, vals):
+        cur = params.setdefault(name, [])
+        for v in vals:
+            if _jsonable(v) and not any(v == c and type(v) is type(c) for c in cur):
+                cur.append(v)
+
+    for m, node in nodes:
+        voc = module_vocabulary(m)
+        for x in ast.walk(node):
+            if isinstance(x, ast.Compare):
+                sides = [x.left] + list(x.comparators)
+                for a, b in zip(sides, sides[1:]):
+                    for p_, q in ((a, b), (b, a)):
+                        if isinstance(p_, ast.Name) and not isinstance(m.consts.get(p_.id), ast.Constant):
+                            add(p_.id, values_of(m, q))
+                        c = const_value(m, q)
+                        if isinstance(c, (int, float)) and not isinstance(c, bool) and c == c and abs(c) != float("inf") \
+                                and not isinstance(p_, ast.Constant) and const_value(m, p_) is None:
+                            thresholds.append(c)
+            elif isinstance(x, ast.Call) and isinstance(x.func, ast.Attribute) and x.func.attr in ("get", "index") \
+                    and isinstance(x.func.value, ast.Name) and x.func.value.id in voc and x.args \
+                    and isinstance(x.args[0], ast.Name):
+                add(x.args[0].id, [k for k, _ in voc[x.func.value.id]])
+            elif isinstance(x, ast.Subscript) and isinstance(x.value, ast.Name) and x.value.id in voc \
+                    and isinstance(x.slice, ast.Name):
+                add(x.slice.id, [k for k, _ in voc[x.value.id]])
+    return dict(params={n: v[:16] for n, v in sorted(params.items()) if n in public_params and v},
+                thresholds=sorted(set(thresholds))[:32])
+
+
+def guard_hints(mods, guards, public_params):
+    nodes = []
+    for mn, text in guards:
+        try:
+            nodes.append((mods[mn], ast.parse(text, mode="eval")))
+        except (SyntaxError, KeyError):
+            pass
+    return source_hints(nodes, public_params)
 
 
 class LeanEmitter:
@@ -2909,7 +3120,82 @@ def t96_return_either(agg, flag=None):
     if flag:
         return xr.DataArray(np.zeros(3), coords=agg.coords, dims=agg.dims, attrs=agg.attrs)
     return agg.copy(deep=False, data=np.ones(3))
+
+# ---- stores through a parameter on paths that end in `raise` (the input must be intact when the call is rejected),
+#      item assignment of a coordinate / variable by name
+def _reject(r):
+    r.attrs.clear()
+    raise ValueError('rejected')
+
+def t100_attrs_store_then_raise(agg, flag=None):
+    if flag:
+        agg.attrs['seen'] = True
+        raise ValueError('rejected')
+    return xr.DataArray(np.zeros(3))
+
+def t101_coord_item_assign_by_name(agg, dim='x', mode=None):
+    if mode == 'wrap' and agg[dim].max() > 10:
+        agg[dim] = agg[dim].data % 10
+    return xr.DataArray(np.zeros(3), dims=agg.dims)
+
+def t102_cells_store_then_raise(agg):
+    agg.data[0, 0] = 0
+    raise ValueError('never returns')
+
+def t103_coords_item_store_in_try(agg):
+    try:
+        agg.coords['lon'] = agg.coords['lon'] + 1
+    except KeyError:
+        raise ValueError('no lon')
+    return xr.DataArray(np.zeros(3))
+
+def t104_ok_raise_only(agg, flag=None):
+    if flag:
+        msg = 'bad ' + str(flag)
+        raise ValueError(msg)
+    return xr.DataArray(np.zeros(3), coords=agg.coords, dims=agg.dims, attrs=agg.attrs)
+
+def t105_nested_raise_after_write(agg, a=None, b=None):
+    if a:
+        if b:
+            agg.values[...] = 0
+            raise ValueError('b')
+        raise TypeError('a')
+    return xr.DataArray(np.zeros(3))
+
+def t106_helper_writes_then_raises(agg):
+    _reject(agg)
+    return xr.DataArray(np.zeros(3))
+
+def t107_item_assign_const_name(agg):
+    agg['lon'] = agg['lon'] - 360
+    return xr.DataArray(np.zeros(3))
+
+def t108_ok_item_assign_on_deep_copy(agg, dim='x'):
+    c = agg.copy(deep=True)
+    c[dim] = c[dim].data % 10
+    c.attrs['wrapped'] = True
+    return c
+
+def t109_coord_store_else_branch_raises(agg, dim='x'):
+    if agg[dim].min() >= 0:
+        agg.coords[dim] = agg[dim].data + 1
+    else:
+        raise ValueError('negative')
+    return xr.DataArray(np.zeros(3))
 '''
+
+# the input buffers (names as in Entry.params) a pattern's program may write -- theorem translator_selftest_components
+SELFTEST_WRITES = {
+    "t62_setitem_da": ["agg"], "t64_values_slice_assign": ["agg"], "t65_coord_write": ["agg.coords"],
+    "t66_del_attr": ["agg.attrs"], "t67_attrs_update": ["agg.attrs"], "t90_attrs_setattr": ["agg.attrs"],
+    "t91_name_store": ["agg.attrs"], "t99_augassign_attrs": ["agg.attrs"],
+    "t100_attrs_store_then_raise": ["agg.attrs"], "t101_coord_item_assign_by_name": ["agg", "agg.coords"],
+    "t102_cells_store_then_raise": ["agg"], "t103_coords_item_store_in_try": ["agg.coords"],
+    "t104_ok_raise_only": [], "t105_nested_raise_after_write": ["agg"], "t106_helper_writes_then_raises": ["agg.attrs"],
+    "t107_item_assign_const_name": ["agg", "agg.coords"], "t108_ok_item_assign_on_deep_copy": [],
+    "t109_coord_store_else_branch_raises": ["agg.coords"],
+}
 
 
 def selftest_entries(mods):
@@ -2967,8 +3253,8 @@ def generate(repo):
             status=e["status"], k=e["k"], nparams=e["nparams"], params=e["params"], ret=list(e["ret"]), wused=e["wused"],
             ops=count_ops(e["items"]), raw_ops=raw_ops,
             vars=e["nvars"], used=e["used"], unclassified=e["unclassified"], unknowns=e["unknowns"], rebinds=e["rebinds"],
-            inlined=e["inlined"], meta=facts)
-    st_names = []
+            inlined=e["inlined"], meta=facts, input_writes=e["input_writes"], hints=e["hints"])
+    st_names, st_writes = [], []
     for e in selftest_entries(mods):
         lname = "selftest_" + e["func"]
         em = LeanEmitter("prog_" + lname)
@@ -2977,9 +3263,17 @@ def generate(repo):
         out.append(f"def prog_{lname} : Prog := {top}\n")
         st_names.append(f"({lean_str(e['func'])}, prog_{lname}, {e['k']}, [{', '.join(map(str, e['ret']))}], "
                         f"{'true' if e['expect_safe'] else 'false'})")
+        if e["func"] in SELFTEST_WRITES:
+            want = sorted(e["params"].index(n) for n in SELFTEST_WRITES[e["func"]])
+            st_writes.append(f"({lean_str(e['func'])}, prog_{lname}, {e['k']}, [{', '.join(map(str, want))}])")
     out.append("/-- translator self-test: (pattern, program, input buffers, slots of the result, must the checker accept it) -/")
     out.append("def selftest : List (String × Prog × Nat × List Nat × Bool) := [\n  " + ",\n  ".join(st_names) + "]\n")
     rep["selftest_patterns"] = len(st_names)
+    out.append("/-- translator self-test, component level: (pattern, program, input buffers, the input buffers -- cells `i`, "
+               "coordinates `n+i`,\n    attrs `2n+i` of parameter `i` -- that the program may write).  A store through a "
+               "parameter is a write of the corresponding\n    component on every path, also on a path that ends in `raise` -/")
+    out.append("def selftestWrites : List (String × Prog × Nat × List Nat) := [\n  " + ",\n  ".join(st_writes) + "]\n")
+    rep["selftest_write_patterns"] = len(st_writes)
     out.append("def allEntries : List Entry := [" + ", ".join("entry_" + n for n in names) + "]\n")
     out.append("def allMeta : List FuncMeta := [" + ", ".join("meta_" + n for n in names) + "]\n")
     out.append("end XrsVerif.Gen")
